@@ -521,6 +521,62 @@ pub fn mon_c14(out: &mut Out, l: &str, r: &str) {
             // the failing reply belongs to the last request served
             out.check(calls.len() <= good.len(), || "more requests served than were received".into(), l);
         }
+        // exactly which reply meets the fault: play the write script against the replies owed
+        // (each write call takes one event; an exhausted script takes everything).  Judged when
+        // the read side has no fault before its last data and no flush script interferes.
+        let revs: Vec<&str> = field("r", fields).split(',').collect();
+        let first_fault = revs.iter().position(|e| !(e.starts_with('d') || *e == "p"));
+        let data_after_fault = first_fault.is_some_and(|i| revs[i..].iter().any(|e| e.starts_with('d') && e.len() > 1));
+        if !data_after_fault && field("f", fields).is_empty() {
+            if let Some(log) = expected_log(kind, &good, &svc) {
+                let mut evs: std::collections::VecDeque<&str> = wf.split(',').filter(|e| !e.is_empty()).collect();
+                let mut ncalls = 0usize;
+                let mut hit: Option<(usize, String)> = None;
+                'outer: for entry in &log {
+                    if entry.starts_with("call ") {
+                        ncalls += 1;
+                        continue;
+                    }
+                    let mut remaining = (entry.len() - "write ".len()) / 2;
+                    while remaining > 0 {
+                        match evs.pop_front() {
+                            None => remaining = 0,
+                            Some("p") => {}
+                            Some("z") => {
+                                hit = Some((ncalls, "wz".into()));
+                                break 'outer;
+                            }
+                            Some(e) if e.starts_with('x') => {
+                                hit = Some((ncalls, e[1..].to_string()));
+                                break 'outer;
+                            }
+                            Some(e) if e.starts_with('a') => match e[1..].parse::<usize>() {
+                                Ok(0) => {
+                                    hit = Some((ncalls, "wz".into()));
+                                    break 'outer;
+                                }
+                                Ok(n) => remaining -= n.min(remaining),
+                                Err(_) => return,
+                            },
+                            Some(_) => return,
+                        }
+                    }
+                }
+                if let Some((nc, k)) = hit {
+                    let expect_calls: Vec<String> = log.iter().filter(|e| e.starts_with("call ")).take(nc).cloned().collect();
+                    out.check(
+                        end == format!("end failed:{k}"),
+                        || format!("the reply to request {nc} cannot be written (`{k}`): the connection must end with one report of it, got `{end}`"),
+                        l,
+                    );
+                    out.check(
+                        calls.iter().map(|c| c.to_string()).collect::<Vec<_>>() == expect_calls,
+                        || format!("a reply could not be written after {nc} request(s), but {} request(s) were served", calls.len()),
+                        l,
+                    );
+                }
+            }
+        }
         return;
     }
     let expect_calls: Vec<String> = good
